@@ -44,6 +44,12 @@ def value_lattice(rnd):
     for n in STRLENS:
         vals.append(("OctetString", bytes(rnd.randrange(256) for _ in range(n))))
         vals.append(("Opaque", bytes(rnd.randrange(256) for _ in range(min(n, 300)))))
+    # strings whose content looks like BER itself: a string is opaque to the codec, whatever it starts with
+    for b in (b"0\x80", b"\x30\x06\x02\x01\x01\x04\x80A", b"\x30\x80\x00\x00", b"\x04\x80", b"\xa2\x80\x00", b"\x30\x82\xff\xff", b"\x30\x84\xff\xff\xff\xff",
+              b"\x30", b"\x30\x81", b"\x80", b"\x30\x04" * 40, b"\x30\x26\x02\x01\x01\x04\x06public\xa2\x19\x02\x01\x01\x02\x01\x00\x02\x01\x000\x0e0\x0c\x06\x08+\x06\x01\x02\x01\x01\x01\x00\x05\x00",
+              b"\x9f\x78\x04\x42\xf6\x00\x00", b"\x04\x07wrapped", b"\x02\x01\x05", b"\x30\x03\x02\x01\x05"):
+        vals.append(("OctetString", b))
+        vals.append(("Opaque", b))
     vals.append(("OctetString", b"\x00" * 5))
     vals.append(("OctetString", bytes(range(256))))
     for ip in ((0, 0, 0, 0), (255, 255, 255, 255), (127, 0, 0, 1), (10, 128, 255, 1)):
@@ -118,6 +124,21 @@ def cases(ctx):
                 for warm in (False, True):
                     C.append(dict(proto=proto, initial=ini, warm=warm, op=rnd.choice(["get", "set", "getnext"]), oids=[oids[0]], vals=[("Integer", 7)],
                                   reqid=1700000000, nr=0, mr=0, community="second"))
+    # ... also within one credential family (the message-processing model is kept): permanently and for the length of a block
+    for fam, second in (("v1", "v1"), ("v2c", "v2c"), ("v3a_md5", "v3a_sha"), ("v3p_md5", "v3a_md5"), ("v3n", "v3p_sha")):
+        for warm in (False, True):
+            for via in ("configure", "reconfigure"):
+                for op in ("get", "set", "bulkget" if fam != "v1" else "getnext"):
+                    C.append(dict(proto=second, initial=fam, warm=warm, via=via, op=op, oids=[oids[0]], vals=[("Integer", 7)],
+                                  reqid=1700000000, nr=0, mr=2, community="second"))
+    # engine ids with runs of zero octets (as long as and longer than the digest placeholder), of minimal and maximal size
+    engines = [bytes([0x80, 0, 2, 0xb8, 5]) + b"\0" * 12, b"\0" * 12, bytes([0x80, 0, 0x1f, 0x88, 4]) + b"\0" * 27, b"\0" * 5, b"\0" * 32,
+               bytes([0x80, 0, 0x1f, 0x88, 4]) + b"\0" * 11 + b"\x01" + b"\0" * 13, b"\xff" * 32, bytes(range(5, 37))]
+    for proto in PROTOS[2:]:
+        for e in engines:
+            for op in (("get", "set", "bulkget") if not q else (rnd.choice(["get", "set", "bulkget"]),)):
+                C.append(dict(proto=proto, op=op, oids=[oids[0]], vals=[rnd.choice(vals)], reqid=rnd.choice(REQIDS), nr=0, mr=3, engine=e,
+                              ctxname=rnd.choice([b"", b"\0" * 12])))
     return C
 
 
@@ -143,7 +164,9 @@ def run(ctx):
     ctx.judge(T, verdicts, signature=sig, nontrivial=lambda tr, v: json.dumps(tr["events"][0]["raw"]))
     ctx.rule = ("every API operation (get, multiget, getnext, multigetnext, set, multiset, bulkget, first request of walk/bulkwalk, v3 discovery probe) "
                 "x v1/v2c/v3 levels with arguments from the boundary lattice (request ids 0..2^63-1 incl. 2^31, 2^32; sub-identifiers up to 2^32-1; 2..128 arcs; "
-                "every SET value type at and around every byte boundary; strings of length 0..1000; communities, context names, engine ids) and seeded "
+                "every SET value type at and around every byte boundary; strings of length 0..1000; communities, context names, engine ids incl. runs of >= 12 zero octets "
+                "and the 5 / 32 octet sizes), histories (credentials changed by configure() or inside a reconfigure() block, across and within a credential family, before "
+                "and after a first request) and seeded "
                 "combinations; each emitted datagram is decoded by Ber.tla under TLC and compared with the intended request; distinct = distinct datagram bytes")
     ctx.assumptions = ["BER, not DER: the long form 81 7f for length 127 is well-formed", "OIDs need >= 2 arcs and a first octet < 128 (x690 limit)",
                        "for privacy users the scoped PDU is decrypted by the reference agent's own stream transform before TLC decodes it"]
